@@ -1649,6 +1649,12 @@ func resolveIndex(v, index reflect.Value, indexAsStr string) (reflect.Value, err
 			ptr = ptr.Addr()
 		}
 		if method := ptr.MethodByName(indexAsStr); method.IsValid() {
+			if ptr.Kind() == reflect.Ptr && ptr.IsNil() {
+				// a method with a value receiver cannot be called through a nil pointer
+				if _, ok := ptr.Type().Elem().MethodByName(indexAsStr); ok {
+					return reflect.Value{}, fmt.Errorf("nil pointer evaluating %s.%s", ptr.Type(), indexAsStr)
+				}
+			}
 			return method, nil
 		}
 	}
